@@ -46,6 +46,9 @@ pub enum Junk {
     /// header mode only: a frame with a conforming distribution header that introduces new atom cache entries, followed
     /// by a term that cannot be decoded; then a valid message that refers to those entries
     HeaderThenBadTerm(u16),
+    /// 250..400 frames in a row that end exactly where the next term would begin (a tuple that announces three elements and
+    /// brings none): each is an error for itself, however many there are
+    CutAtTermBoundaryRun(u8),
 }
 
 const TINY: &[&[u8]] = &[&[131], &[112], &[131, 68], &[131, 69], &[131, 70], &[112, 131], &[131, 80], &[68], &[131, 68, 1], &[131, 69, 0], &[112, 131, 104], &[0], &[131, 131], &[70]];
@@ -260,6 +263,15 @@ fn build(c: &Case) -> Built {
                         good
                     }
                     Junk::HeaderThenBadTerm(k) => TINY[*k as usize % TINY.len()].to_vec(),
+                    Junk::CutAtTermBoundaryRun(k) => {
+                        let one: Vec<u8> = if c.header_mode && !c.read_half { vec![131, 68, 0, 104, 3] } else { vec![112, 131, 104, 3] };
+                        let n = 250 + (*k as usize * 150) / 256;
+                        for _ in 1..n {
+                            stream.extend_from_slice(&frame4(&one));
+                        }
+                        junk_frames += n - 1;
+                        one
+                    }
                     Junk::NotAControlTuple => pass_through(&Value::atom("hello"), None),
                     Junk::EmptyTupleControl => pass_through(&Value::Tuple(vec![]), Some(&Value::int(1))),
                 };
@@ -514,6 +526,7 @@ pub fn oracle(c: &Case) -> Verdict {
     let info = if nontrivial { CaseInfo::nt(fp(&format!("{:?}", c))) } else { CaseInfo::trivial() };
     let info = info
         .class_if(b.junk_frames > 0, "junk-frames")
+        .class_if(b.junk_frames >= 250, "run-of-250-or-more-bad-frames")
         .class_if(b.ticks > 0, "ticks")
         .class_if(c.header_mode && !c.read_half, "header-mode")
         .class_if(c.read_half, "read-half-loop")
@@ -557,6 +570,7 @@ fn strategy() -> impl Strategy<Value = Case> {
         1 => Just(Junk::EmptyTupleControl),
         2 => any::<u8>().prop_map(Junk::Tiny),
         2 => any::<u16>().prop_map(Junk::HeaderThenBadTerm),
+        1 => any::<u8>().prop_map(Junk::CutAtTermBoundaryRun),
     ];
     let item = prop_oneof![
         8 => (0u8..CONTROL_TABLE.len() as u8, prop::collection::vec(term(), 6), big, form).prop_map(|(row, fields, payload, form)| Item::Msg { row, fields, payload, form }),
